@@ -17,7 +17,6 @@ import (
 	"path/filepath"
 	"sort"
 	"strings"
-	"sync"
 	"testing"
 
 	kit "verifkit"
@@ -26,7 +25,7 @@ import (
 const c26SrvRule = "the C25 live two-session server workload (remote scripts + API readers/writers in 3-8 goroutines) under the race detector; non-trivial = round in which an API operation overlapped a session event"
 
 func c26SrvRounds() int {
-	n := kit.Scale(150, 1200)
+	n := kit.Scale(400, 2000)
 	if v := os.Getenv("C26_SRV_ROUNDS"); v != "" {
 		fmt.Sscanf(v, "%d", &n)
 	}
@@ -125,14 +124,4 @@ func TestVerifC26Server(t *testing.T) {
 		t.Skip("parent only")
 	}
 	c26SrvRunChild(t, "TestVerifC26ChildServer", "server")
-}
-
-func c26SrvPair(n int, f, g func()) {
-	for i := 0; i < n; i++ {
-		var wg sync.WaitGroup
-		wg.Add(2)
-		go func() { defer wg.Done(); f() }()
-		go func() { defer wg.Done(); g() }()
-		wg.Wait()
-	}
 }
